@@ -88,10 +88,10 @@ def r1_destinations(ctx, f, rep):
                        'been filtered by addr != self.identity.addr() before popping')
     classes = {}
     n_sites = set()
-    for b in f.bodies:
+    for b in f.analysed_bodies():
         if not b.nname.startswith('Foca::') or b.nname == 'Foca::send_message':
             continue
-        if not any(t['res'].endswith('send_message') for _, t in f.calls(b)):
+        if not any(t['res'].endswith('send_message') for _, t in f.calls_deep(b)):
             continue
         for p in ctx.paths(f, b, 'none'):
             calls = {c['id']: c for c in p.calls()}
@@ -99,7 +99,7 @@ def r1_destinations(ctx, f, rep):
             for i, e in enumerate(p.events):
                 if e['kind'] != 'call' or e['res'] != 'Foca::send_message':
                     continue
-                site = (b.nname, e['block'])
+                site = (b.nname, e['tblock'])
                 n_sites.add(site)
                 dst = e['args'][1]
                 cls = None
